@@ -106,8 +106,23 @@ def run_harness(h, workdir, tier):
     cmd = ["cargo", "kani", "--harness", h["harness"]] + list(h.get("flags", []))
     res["cmd"] = "cd %s && CARGO_NET_OFFLINE=true %s" % (gen["path"], " ".join(cmd))
     env = dict(os.environ, CARGO_NET_OFFLINE="true", CARGO_TARGET_DIR=os.path.join(gen["path"], "target"))
+    import signal
     try:
-        p = subprocess.run(cmd, cwd=gen["path"], capture_output=True, text=True, timeout=timeout, env=env)
+        proc = subprocess.Popen(cmd, cwd=gen["path"], stdout=subprocess.PIPE, stderr=subprocess.PIPE, text=True, env=env, start_new_session=True)
+        try:
+            so, se = proc.communicate(timeout=timeout)
+        except subprocess.TimeoutExpired:
+            try:
+                os.killpg(proc.pid, signal.SIGKILL)   # cbmc is a grandchild: kill the whole group
+            except Exception:
+                pass
+            proc.communicate()
+            raise
+
+        class _P:
+            pass
+        p = _P()
+        p.stdout, p.stderr, p.returncode = so, se, proc.returncode
     except subprocess.TimeoutExpired:
         res["message"] = "kani timed out after %ds" % timeout
         res["wall"] = time.time() - t0
